@@ -29,6 +29,7 @@ Definition vec_step (H : values -> Z) (st : mstate) (l : vec_local) : option (ms
     | QDel t => let '(b, st') := delete_by_hash (H t) (vals_eqb t) st in (st', inr (RBool b))
     | QPartial p => let '(n, st') := delete_partial p st in (st', inr (RNum n))
     | QReset => (reset st, inr RUnit)
+    | QCollect => (st, inr (RColl (collect st)))   (* one read-locked section *)
     end.
 
 Definition vec_machine (H : values -> Z) : Conc.machine :=
@@ -55,6 +56,7 @@ Definition cres_eqb (a b : result) : bool :=
   | RBool x, RBool y => Bool.eqb x y
   | RNum x, RNum y => x =? y
   | RUnit, RUnit => true
+  | RColl x, RColl y => entries_eqb x y
   | _, _ => false
   end.
 
